@@ -1820,10 +1820,11 @@ def resolve_imaginary(dt):
     """
     if dt.tzinfo is not None and not datetime_exists(dt):
 
-        curr_offset = (dt + datetime.timedelta(hours=24)).utcoffset()
-        old_offset = (dt - datetime.timedelta(hours=24)).utcoffset()
+        # An imaginary time comes back from a round trip through UTC
+        # displaced by exactly the width of the gap it lies in.
+        dt_rt = dt.astimezone(UTC).astimezone(dt.tzinfo)
 
-        dt += curr_offset - old_offset
+        dt += abs(dt.replace(tzinfo=None) - dt_rt.replace(tzinfo=None))
 
     return dt
 
